@@ -55,6 +55,14 @@ class Rejections:
                         fs.append(self.canon.formula(t, label == "T"))
                     except AnalysisError:
                         fs.append(("atom", ("opaque", norm(t))))
+                # a raise inside an `except` handler happens only if the guarded statements raised: that condition is not one
+                # the role predicates talk about, so the site carries an opaque atom and can never be *implied* by a role
+                h = getattr(n, "_parent", None)
+                while h is not None and h is not fi.node:
+                    if isinstance(h, ast.ExceptHandler):
+                        fs.append(("atom", ("opaque", f"exception-caught@{getattr(h, 'lineno', 0)}")))
+                        break
+                    h = getattr(h, "_parent", None)
                 exc = None
                 if n.exc is not None:
                     e = n.exc
